@@ -122,3 +122,6 @@ mod inline;
 // Shared routines
 
 mod norm_util;
+
+#[cfg(feature = "verif_hooks")]
+pub mod verif_hooks;
